@@ -15,6 +15,11 @@ try:
 except ImportError:
     pass
 try:
+    import extract_consts
+    TRANSLATORS.append(extract_consts.main)
+except ImportError:
+    pass
+try:
     import extract_sites
     TRANSLATORS.append(extract_sites.main)
 except ImportError:
